@@ -27,6 +27,8 @@ reported once.
   fsc free                                                 → ok <n> | err:<class>
   fsc cat                                                  → ok <type>:<blocks>:<name>,… | err:<class>
   fsc q                                                    → ok <n> <type>:<blocks>:<name>,… | err:<class>   (free + cat)
+  fsc variant ifaceguard <0|1>                             → ok   the tree has `proposed_fixes/cpm-put-interface-flags.diff`
+                                                             (`put` refuses an image that sets F5–F8); default 0 = as written
 
 `<real>` is `ok` or `err:<class>` with the classes of `Err.token`.  Names, types, passwords, times are hex.
 -/
@@ -37,6 +39,8 @@ open A2Verif.Read.Cpm (Dpb)
 structure St where
   raw : Raw := { unitLen := 1024, units := #[] }
   ready : Bool := false
+  /-- code variant: `write_file` refuses file images that set an interface attribute -/
+  guard : Bool := false
   deriving Inhabited
 
 def eqBytes : List Nat → List Nat → Bool
@@ -77,16 +81,16 @@ def resTok {α : Type} (r : R α) : String :=
   | .error e => s!"err:{e.token}"
 
 /-- compare result class and image; on disagreement adopt the mirror -/
-def verdict (mirror : Raw) (real : String) (model : String) (r' : Raw) : St × String :=
-  if model ≠ real then ({ raw := mirror, ready := true }, s!"bad result model={model} real={real}")
+def verdict (guard : Bool) (mirror : Raw) (real : String) (model : String) (r' : Raw) : St × String :=
+  if model ≠ real then ({ raw := mirror, ready := true, guard := guard }, s!"bad result model={model} real={real}")
   else match firstDiff r' mirror with
     | some i =>
       let a := r'.units[i]?.getD []
       let b := mirror.units[i]?.getD []
       let o := byteDiff a b 0
-      ({ raw := mirror, ready := true }, s!"bad block {i} offset {o} model={a.getD o 256} real={b.getD o 256}")
+      ({ raw := mirror, ready := true, guard := guard }, s!"bad block {i} offset {o} model={a.getD o 256} real={b.getD o 256}")
     -- equal block for block: keep the mirror (shares its units with family `fs`)
-    | none => ({ raw := mirror, ready := true }, "ok")
+    | none => ({ raw := mirror, ready := true, guard := guard }, "ok")
 
 def parseChunks (s : String) : Option (List (Nat × Bytes)) :=
   if s == "-" then some [] else
@@ -113,55 +117,59 @@ def blank (d : Dpb) (mirror : Raw) : Raw :=
 def handle (d : Dpb) (mirror : Raw) (st : St) (toks : List String) : St × String :=
   match toks with
   | ["state"] => (st, if st.ready then "ready" else "empty")
+  | ["variant", "ifaceguard", v] =>
+    match bool01 v with
+    | some b => ({ st with guard := b }, "ok")
+    | none => (st, "bad-request")
   | ["format", vn, time, real] =>
     match Hex.ofHex vn, parseTime time with
     | some vn, some time =>
       let (res, r') := format d (blank d mirror) vn time
-      verdict mirror real (resTok res) r'
+      verdict st.guard mirror real (resTok res) r'
     | _, _ => (st, "bad-request")
   | ["init", vn, time] =>
     match Hex.ofHex vn, parseTime time with
     | some vn, some time =>
       let (res, r') := format d (blank d mirror) vn time
       match res with
-      | .ok _ => ({ raw := r', ready := true }, "ok")
+      | .ok _ => ({ raw := r', ready := true, guard := st.guard }, "ok")
       | .error e => (st, s!"bad init err:{e.token}")
     | _, _ => (st, "bad-request")
   | ["put", name, fstype, access, eof, now, real, cs] =>
     match Hex.ofHex name, Hex.ofHex fstype, Hex.ofHex access, eof.toNat?, Hex.ofHex now, parseChunks cs with
     | some name, some fstype, some access, some eof, some now, some cs =>
-      let (res, r') := put d st.raw { chunkLen := blockSize d, fullPath := name, fsType := fstype, access := access, eof := eof, chunks := cs } now
-      verdict mirror real (resTok res) r'
+      let (res, r') := put d st.raw { chunkLen := blockSize d, fullPath := name, fsType := fstype, access := access, eof := eof, chunks := cs, guardIface := st.guard } now
+      verdict st.guard mirror real (resTok res) r'
     | _, _, _, _, _, _ => (st, "bad-request")
   | ["delete", name, real] =>
     match Hex.ofHex name with
-    | some name => let (res, r') := delete d st.raw name; verdict mirror real (resTok res) r'
+    | some name => let (res, r') := delete d st.raw name; verdict st.guard mirror real (resTok res) r'
     | none => (st, "bad-request")
   | ["rename", old, new, real] =>
     match Hex.ofHex old, Hex.ofHex new with
-    | some old, some new => let (res, r') := rename d st.raw old new; verdict mirror real (resTok res) r'
+    | some old, some new => let (res, r') := rename d st.raw old new; verdict st.guard mirror real (resTok res) r'
     | _, _ => (st, "bad-request")
   | ["lock", name, real] =>
     match Hex.ofHex name with
-    | some name => let (res, r') := lock d st.raw name; verdict mirror real (resTok res) r'
+    | some name => let (res, r') := lock d st.raw name; verdict st.guard mirror real (resTok res) r'
     | none => (st, "bad-request")
   | ["unlock", name, real] =>
     match Hex.ofHex name with
-    | some name => let (res, r') := unlock d st.raw name; verdict mirror real (resTok res) r'
+    | some name => let (res, r') := unlock d st.raw name; verdict st.guard mirror real (resTok res) r'
     | none => (st, "bad-request")
   | ["retype", name, ty, real] =>
     match Hex.ofHex name, Hex.ofHex ty with
-    | some name, some ty => let (res, r') := retype d st.raw name ty; verdict mirror real (resTok res) r'
+    | some name, some ty => let (res, r') := retype d st.raw name ty; verdict st.guard mirror real (resTok res) r'
     | _, _ => (st, "bad-request")
   | ["protect", name, pw, rd, wr, del, real] =>
     match Hex.ofHex name, Hex.ofHex pw, bool01 rd, bool01 wr, bool01 del with
     | some name, some pw, some rd, some wr, some del =>
       let (res, r') := protect d st.raw name pw rd wr del
-      verdict mirror real (resTok res) r'
+      verdict st.guard mirror real (resTok res) r'
     | _, _, _, _, _ => (st, "bad-request")
   | ["unprotect", name, real] =>
     match Hex.ofHex name with
-    | some name => let (res, r') := unprotect d st.raw name; verdict mirror real (resTok res) r'
+    | some name => let (res, r') := unprotect d st.raw name; verdict st.guard mirror real (resTok res) r'
     | none => (st, "bad-request")
   | ["get", name] =>
     match Hex.ofHex name with
